@@ -426,6 +426,23 @@ def cli_part(chk, scratch, n_pairs):
         else:
             w = world.standard_world(seed, n_chroms=2, genes_per_chrom=4, hidden=True, chrom_len=100000)
             world.add_standard_reads(w, per_transcript=6, jitter=3, hidden_cov=5)
+        if i % 2 == 1:
+            # polyA-rich data must stay clearly above the share at which model construction starts to require tails (0.7): every read derived from
+            # a transcript that has no soft-clipped tail yet gets one at its 3' end
+            iso_ = {t_.id: t_ for t_ in w.all_transcripts()}
+            for g_ in w.genes:
+                for t_ in g_.hidden:
+                    iso_[t_.id] = t_
+            for r_ in w.reads:
+                t_ = iso_.get(r_.truth.get("src")) if isinstance(r_.truth, dict) else None
+                if t_ is None or r_.flag & 4 or not r_.cigar:
+                    continue
+                if t_.strand == "+" and r_.cigar[-1][0] != 4:
+                    r_.cigar = list(r_.cigar) + [(4, 30)]
+                    r_.seq = r_.seq + "A" * 30
+                elif t_.strand == "-" and r_.cigar[0][0] != 4:
+                    r_.cigar = [(4, 30)] + list(r_.cigar)
+                    r_.seq = "T" * 30 + r_.seq
         # consecutive gene-info records with the SAME region and different gene lists (a gene nested in an intron of another one, reads in
         # separate clusters), and one isoform seen from two clusters
         from vlib import world2 as _w2
@@ -532,6 +549,7 @@ def cli_part(chk, scratch, n_pairs):
                           (stat[0], stat[1]), {"opts": opts})
         else:
             chk.count("reuse_polya_share_%s" % ("high" if int(stat[0][1]) >= 0.7 * int(stat[0][0]) else "low"))
+            chk.extra.setdefault("reuse_polya_shares", []).append(round(int(stat[0][1]) / max(1, int(stat[0][0])), 3))
         # (d) outputs
         o1 = os.path.join(d, "o1", "SMP")
         o2 = os.path.join(d, "o2", "SMP0")
